@@ -191,4 +191,19 @@ def parseBytesP (x : B) : Outcome (Except BinaryParseError Header) :=
     | .error e => return .error (.parse e)
     | .ok h => return .ok h
 
+/-- Panic-aware `impl FromStr for Header<'static>`: `Ok(Header::try_from(s)?.to_owned())`;
+the only partial operation is the one inside `try_from(&str)`. -/
+def fromStrHeaderP (x : B) : Outcome (Except ParseError Header) :=
+  match parseStrP x with
+  | .panic => .panic
+  | .val (.error e) => .val (.error e)
+  | .val (.ok h) => .val (.ok h.toOwned)
+
+/-- Panic-aware `impl FromStr for Addresses`: `Ok(Header::try_from(s)?.addresses)`. -/
+def fromStrAddressesP (x : B) : Outcome (Except ParseError Addresses) :=
+  match parseStrP x with
+  | .panic => .panic
+  | .val (.error e) => .val (.error e)
+  | .val (.ok h) => .val (.ok h.addresses)
+
 end V1
